@@ -15,12 +15,22 @@ Open Scope float_scope.
 _MOLS = {}
 
 
-def get_mol(tag, n, bonds):
-    key = (tag, n, tuple(sorted((min(a, b), max(a, b)) for a, b in bonds)))
+_NAMES = {}
+
+
+def get_mol(tag, n, bonds, variant=False):
+    """cached Molecule of the species (tag, n, bonds).  variant=True: a SEPARATELY LOADED molecule of the same species
+    (same names and indices, so it is == to the first one) whose topology file lists the bonds in reverse order: its
+    AtomTop.bonds sets are built by a different insertion history."""
+    spec_key = (tag, n, tuple(sorted((min(a, b), max(a, b)) for a, b in bonds)))
+    key = spec_key + (bool(variant),)
     if key not in _MOLS:
-        name = "%s%d" % (tag, len(_MOLS))
+        name = _NAMES.setdefault(spec_key, "%s%d" % (tag, len(_NAMES)))
         atoms = [(an, name[:5], 1) for an in molgen.atom_names(n, prefix=tag)]
-        _MOLS[key] = molgen.make_molecule(name[:5], atoms, np.zeros((n, 3)) + np.arange(n)[:, None] * 0.1, list(key[2]))
+        blist = list(spec_key[2])
+        if variant:
+            blist = [(b, a) for a, b in reversed(blist)]
+        _MOLS[key] = molgen.make_molecule(name[:5], atoms, np.zeros((n, 3)) + np.arange(n)[:, None] * 0.1, blist)
     return _MOLS[key]
 
 
@@ -49,7 +59,9 @@ class RandRecorder:
 def run_sequence(spec, steps):
     """One map object, several calls.  spec: dict(n_ref, bonds, ref (n,3), tgt (m,3), s).  Builds
     ExchangeMap(ref_object, tgt_object, s) and performs the calls in `steps`, each a dict with
-      how = "copy"   : the argument is a fresh copy of the reference placed at step["pos"];
+      how = "copy"   : the argument is a fresh copy of the reference placed at step["pos"] (shares the topology object);
+      how = "deepcopy": the argument is ref_object.deep_copy() placed at step["pos"] (its own copy of the topology);
+      how = "separate": the argument is a separately loaded, equal molecule (own topology, bonds listed in reverse order);
       how = "object" : the argument is the very Molecule object the map was built from, as it currently is;
       how = "inplace": that object is first moved in place (ref_object.atoms_positions = step["pos"]), then passed.
     Returns dict(err=..., bondsets) or dict(eq, bondsets, db, map, calls=[dict(how, pos (conformation actually
@@ -70,6 +82,12 @@ def run_sequence(spec, steps):
         for st in steps:
             if st["how"] == "copy":
                 arg = ref.copy()
+                arg.atoms_positions = np.array(st["pos"], dtype=float)
+            elif st["how"] == "deepcopy":
+                arg = ref.deep_copy()
+                arg.atoms_positions = np.array(st["pos"], dtype=float)
+            elif st["how"] == "separate":
+                arg = get_mol("R", spec["n_ref"], spec["bonds"], variant=True)
                 arg.atoms_positions = np.array(st["pos"], dtype=float)
             else:
                 if st["how"] == "inplace":
@@ -101,7 +119,8 @@ def run_impl(spec, refp, rand_seed=None):
 
 
 PATTERNS = [["copy"], ["copy"], ["object", "copy", "object"], ["copy", "object"], ["object", "inplace"],
-            ["copy", "inplace", "restore"], ["object", "copy", "copy", "object", "inplace", "object"]]
+            ["copy", "inplace", "restore"], ["object", "copy", "copy", "object", "inplace", "object"],
+            ["deepcopy"], ["separate", "deepcopy"]]
 
 
 def make_steps(rs, spec, conf_fn, pattern=None):
@@ -180,9 +199,23 @@ def random_rotation(rs):
     return rot(axis, theta)
 
 
-def gen_graph(rs, n):
-    """connected bond graph on n >= 3 atoms with random labels"""
-    kind = rs.choice(["tree", "cyclic", "chain", "star"], p=[0.4, 0.3, 0.2, 0.1])
+def elastic_bonds(rs, n):
+    """elastic-network-like bond list on a chain of n >= 20 atoms: backbone, second/third neighbours and long bonds
+    with index gaps of 8, 16 and 32: many atoms get 5-8 bonded neighbours whose indices collide in small hash tables"""
+    b = set(chain_bonds(n))
+    for i in range(n):
+        for gap, pr in ((2, 0.7), (3, 0.35), (8, 0.3), (16, 0.45), (32, 0.5)):
+            if i + gap < n and rs.uniform() < pr:
+                b.add((i, i + gap))
+    return sorted(b)
+
+
+def gen_graph(rs, n, kind=None):
+    """connected bond graph on n >= 3 atoms with random labels (elastic networks keep the chain labels)"""
+    if kind is None:
+        kind = rs.choice(["tree", "cyclic", "chain", "star"], p=[0.4, 0.3, 0.2, 0.1])
+    if kind == "elastic":
+        return kind, [(int(a), int(b)) for a, b in elastic_bonds(rs, n)]
     if kind == "tree":
         b = molgen.random_tree(rs, n)
     elif kind == "cyclic":
@@ -254,10 +287,34 @@ def min_separation(pos):
 
 def gen_reference(rs, geom, n=None):
     """returns (n, graph kind, bonds, positions) for a reference of >= 3 atoms"""
+    kind = None
     if n is None:
         n = int(rs.randint(3, 11)) if rs.randint(20) else int(rs.randint(20, 41))
-    gk, bonds = gen_graph(rs, n)
-    if geom in ("generic", "partial", "near"):
+        if geom in ("generic", "neartie", "elastic") and (geom == "elastic" or rs.randint(8) == 0):
+            n, kind = int(rs.randint(20, 41)), "elastic"
+        elif geom == "neartie" and n < 5:
+            n = 5
+    gk, bonds = gen_graph(rs, n, kind)
+    if geom in ("neartie", "elastic"):
+        geom = "generic"
+    if geom == "nearlinear":
+        # one anchor bent by an angle phi off the straight line, sin(phi) log-uniform in [2e-5, 1e-2]: regular branch
+        # of calcule_base with a comfortable margin over its 1e-6 threshold; random orientation, bonds 0.25-0.4 nm
+        pos = walk_positions(rs, n, bonds)
+        while min_separation(pos) < 1e-3:
+            pos = walk_positions(rs, n, bonds)
+        nb = neighbours(n, bonds)
+        a = int(rs.choice(anchors_of(n, bonds)))
+        n1, n2 = nb[a][:2]
+        u = pos[n2] - pos[a]
+        u /= np.linalg.norm(u)
+        pos[n2] = pos[a] + u * rs.uniform(0.25, 0.4)
+        w = np.cross(u, rs.normal(size=3))
+        w /= np.linalg.norm(w)
+        sphi = 10 ** rs.uniform(np.log10(2e-5), -2)
+        cphi = np.sqrt(1 - sphi * sphi) * rs.choice([-1.0, -1.0, 1.0])     # mostly ~180 degrees, sometimes ~0
+        pos[n1] = pos[a] + (cphi * u + sphi * w) * rs.uniform(0.25, 0.4) * (1.0 if cphi < 0 else 0.5)
+    elif geom in ("generic", "partial", "near"):
         pos = walk_positions(rs, n, bonds)
         while min_separation(pos) < 1e-3:
             pos = walk_positions(rs, n, bonds)
@@ -305,6 +362,23 @@ def gen_target(rs, ref, geom):
     return q + rs.normal(size=(m, 3)) * 0.15
 
 
+def neartie_targets(rs, ref, anchors, m):
+    """target atoms 5e-7..2.5e-4 nm off the bisector plane of an anchor and the anchor nearest to it (their distances
+    to the atom differ by about 1e-6..5e-4 nm: far above rounding, below the precision of a .gro file), on either side"""
+    out = []
+    for _ in range(m):
+        a = int(rs.choice(anchors))
+        others = [b for b in anchors if b != a]
+        b = min(others, key=lambda j: np.linalg.norm(ref[j] - ref[a]))
+        axis = ref[b] - ref[a]
+        axis /= np.linalg.norm(axis)
+        perp = np.cross(axis, rs.normal(size=3))
+        perp /= np.linalg.norm(perp)
+        delta = rs.choice([-1.0, 1.0]) * 10 ** rs.uniform(np.log10(5e-7), np.log10(2.5e-4))
+        out.append((ref[a] + ref[b]) / 2 + delta * axis + rs.uniform(0, 0.12) * perp)
+    return np.array(out)
+
+
 def gen_scale(rs):
     k = rs.randint(5)
     if k == 0:
@@ -314,15 +388,23 @@ def gen_scale(rs):
     return float(rs.uniform(0.02, 2.0))
 
 
-GEOMS_GENERIC = ["generic", "generic", "generic", "partial", "near", "collinear_decimal"]
+GEOMS_GENERIC = ["generic", "generic", "generic", "partial", "near", "collinear_decimal", "nearlinear", "neartie",
+                 "elastic"]
 GEOMS_DYADIC = ["grid", "grid", "collinear_axis", "collinear_diag", "collinear_int"]
 
 
 def gen_spec(rs, geom, n=None):
     n, gk, bonds, ref = gen_reference(rs, geom, n)
     tgt = gen_target(rs, ref, geom)
+    s = gen_scale(rs)
+    if geom == "neartie":
+        anchors = anchors_of(n, bonds)
+        if len(anchors) >= 2:
+            k = max(1, len(tgt) // 2)
+            tgt = np.concatenate([neartie_targets(rs, ref, anchors, k), tgt[k:]])
+        s = float(rs.choice([0.25, 0.5, 0.9, 2.0]))
     return {"n_ref": n, "graph": gk, "geom": geom, "bonds": [list(b) for b in bonds], "ref": ref.tolist(),
-            "tgt": tgt.tolist(), "s": gen_scale(rs)}
+            "tgt": np.array(tgt).tolist(), "s": s}
 
 
 def gen_small_spec(rs, n):
